@@ -59,8 +59,5 @@ def obligations(tier):
 
 
 def check(tier, only=None):
-    obs = obligations(tier)
-    if only:
-        obs = [o for o in obs if only in o.name]
     meta = {"bounds": {}, "assumptions": []}
-    return run_all("C19", tier, obs, "model_checking", meta)
+    return run_all("C19", tier, obligations(tier), "model_checking", meta, only=only)
